@@ -104,6 +104,21 @@ def run(ctx):
                             bad = "after an unrelated edit: error %s, value %r vs %r" % (r4["error"], r4["value"], rr4["value"])
                         elif placement in ("kept", "datafn") and "fr" in r4["log"]:
                             bad = "the kept reader was re-executed by an edit it cannot observe (executed %s)" % (r4["log"],)
+                if bad is None and order == "before":
+                    # back to the first version of the producer: every signature is in the store again (when the evaluated
+                    # function is itself kept nothing runs at all) - the paths kept inside must follow
+                    setw(copy.deepcopy(w))
+                    r5, rr5 = run1(entry, "after revert")
+                    if r5["error"] is not None or r5["value"] != rr5["value"]:
+                        bad = "after the producer was reverted: error %s, value with dds %r, plain execution %r" % (r5["error"], r5["value"], rr5["value"])
+                if bad is None and order in ("before", "earlier"):
+                    # a later, separate load of every path kept so far returns the value most recently kept there
+                    for pth, want in sorted(s.ref_paths.items()):
+                        got = s.load(pth)
+                        res.count("standalone_loads")
+                        if got["error"] is not None or pipeline.norm_ext(got["value"]) != pipeline.norm_ext(want):
+                            bad = "a later dds.load(%r) gives %s, the value most recently kept there is %r" % (pth, got, want)
+                            break
                 if bad:
                     res.violations.append({"what": bad, "input": case, "kf": None})
                 if ctx["driver_ok"]:
